@@ -70,3 +70,20 @@ Lemma or_panic_repaired :
   search (to_msgs wit_mb) (S_ "OR FROM x") = Some []
   /\ search_cmd (t_ :: S_ "SEARCH" :: fields (S_ "OR FROM x")) (to_msgs wit_mb) = ROk [].
 Proof. vm_compute. split; reflexivity. Qed.
+
+(** regression (seeded change C19-1): the SENT* keys use the calendar date AS
+    WRITTEN in the Date: field, whatever its zone offset and time of day
+    (23:30 -0500 is 04:30 UTC of the next day; 00:30 +0530 is 19:00 UTC of the
+    previous day; 13:59 +1400 is 23:59 UTC of the previous day) *)
+Definition zone_mb : list smsg :=
+  [ mk_smsg 1 [] (S_ "Date: Mon, 01 Jan 2024 23:30:00 -0500" ++ nl ++ nl ++ S_ "x" ++ nl) (2026, 10, 1);
+    mk_smsg 2 [] (S_ "Date: Wed, 03 Jan 2024 00:30:00 +0530" ++ nl ++ nl ++ S_ "y" ++ nl) (2026, 10, 1);
+    mk_smsg 3 [] (S_ "Date: Tue, 02 Jan 2024 13:59:00 +1400" ++ nl ++ nl ++ S_ "z" ++ nl) (2026, 10, 1) ].
+Definition d2024 (d : string) : sdate := (S_ d, 1, S_ "2024").
+Lemma sent_date_as_written :
+  map (fun m => sent_date (s_text m)) zone_mb = [Some (2024, 1, 1); Some (2024, 1, 3); Some (2024, 1, 2)]
+  /\ classify_line [KNot (KDate true COn (d2024 "2"))] zone_mb = None
+  /\ search_line [KDate true COn (d2024 "1")] zone_mb = ROk [1]
+  /\ search_line [KNot (KDate true COn (d2024 "2"))] zone_mb = ROk [1; 2]
+  /\ search_line [KOr (KDate true CBefore (d2024 "2")) (KDate true CSince (d2024 "3"))] zone_mb = ROk [1; 2].
+Proof. vm_compute. repeat split; reflexivity. Qed.
